@@ -32,6 +32,11 @@ def state_case(rnd, removal=None, max_calls=10, family=None, malformed=0.0, isol
         nodes = gen.history_nodes(hist) or [1]
         pre.append(('addnode', 0, rnd.choice(nodes), rnd.randint(1, 4)))
         classes.append('node_attr')
+    if rnd.random() < 0.15:
+        from props.base import shift_op
+        d = -rnd.randint(4, 15)
+        hist = [tuple(shift_op(o, d)) for o in hist]
+        classes.append('negative_instants')
     return dict(directed=directed, removal=removal, hist=pre + hist, classes=classes,
                 family=family or rnd.choice(['int', 'int', 'str', 'tuple']), functional=rnd.random() < 0.4)
 
